@@ -33,9 +33,11 @@ def make_search(rng, model, vocab, t, pool=None, small=False, allow_last=True, a
             info["ops"].append("comma")
         elif r < p_star + 0.18 and allow_partial and vocab.info[t.name][i]["open"] and segs[i]:
             v = segs[i]
-            segs[i] = rng.choice([v[:1] + "*", "*" + v[-1:], v[:1] + "*" + v[-1:], "*" + v[1:2] + "*",
-                                  # several '*' and a fixed end: a middle piece may only be found BEFORE the end it must leave room for
-                                  "*" + v[-1:] + "*" + v[-1:], "*" + v[-2:-1] + "*" + v[-1:], v[:1] + "*" + v[-1:] + "*" + v[-1:]])
+            cands = [v[:1] + "*", "*" + v[-1:], v[:1] + "*" + v[-1:], "*" + v[1:2] + "*",
+                     # several '*' and a fixed end: a middle piece may only be found BEFORE the end it must leave room for
+                     "*" + v[-1:] + "*" + v[-1:], "*" + v[-2:-1] + "*" + v[-1:], v[:1] + "*" + v[-1:] + "*" + v[-1:]]
+            # (never two adjacent '*': '**' is another operator, and only as a whole segment)
+            segs[i] = rng.choice([c for c in cands if "**" not in c] or [v[:1] + "*"])
             info["ops"].append("partial")
     # alias in the last segment
     if aliases and rng.random() < 0.2:
